@@ -42,6 +42,11 @@ Qed.
 
 Opaque bind.
 
+Ltac enum_case H :=
+  match type of H with
+  | context [match lookup ?k (enums ?t) with _ => _ end] => destruct (lookup k (enums t)) eqn:?EL
+  end.
+
 Lemma mem_true_iff : forall x l, mem x l = true <-> In x l.
 Proof.
   induction l; simpl; [split; [discriminate|tauto]|].
@@ -101,7 +106,7 @@ Lemma apply_frame : forall o t t' g k,
   apply_op t o = Ok t' -> ~ In (g, k) (op_writes o) -> tlookup g k t' = tlookup g k t.
 Proof.
   intros o t t' g k H Hn.
-  destruct o; simpl in H;
+  destruct o; simpl in H; try enum_case H;
     try (injection H as <-; destruct g; simpl in *; try reflexivity;
          rewrite lookup_bind_neq; [reflexivity|intro; subst; apply Hn; left; reflexivity]);
     try (injection H as <-; destruct g; reflexivity);
@@ -141,6 +146,7 @@ Proof.
   destruct (in_dec tk_eq_dec (g, k) (op_writes o)) as [Hin|Hni].
   2:{ now rewrite (apply_frame _ _ _ _ _ H Hni). }
   destruct o; simpl in H, Hin; try tauto;
+    try (enum_case H; [injection H as <-; destruct Hin as [Hin|[]]; injection Hin as <- <-; simpl; rewrite EL; discriminate|]);
     try (destruct Hin as [Hin|[]]; injection Hin as <- <-; injection H as <-; simpl;
          rewrite lookup_bind_eq; discriminate).
   apply in_map_iff in Hin. destruct Hin as [w [Hw Hin]]. injection Hw as <- <-.
@@ -156,6 +162,7 @@ Lemma apply_defines : forall o t t' g k,
 Proof.
   intros o t t' g k H Hin.
   destruct o; simpl in H, Hin; try tauto;
+    try (enum_case H; [injection H as <-; destruct Hin as [Hin|[]]; injection Hin as <- <-; simpl; rewrite EL; discriminate|]);
     try (destruct Hin as [Hin|[]]; injection Hin as <- <-; injection H as <-; simpl;
          rewrite lookup_bind_eq; discriminate).
   apply in_map_iff in Hin. destruct Hin as [w [Hw Hin]]. injection Hw as <- <-.
@@ -189,7 +196,7 @@ Definition op_loads (o : op) : list name := match o with OLoaded p => [p] | _ =>
 
 Lemma apply_loaded : forall o t t', apply_op t o = Ok t' -> loaded t' = op_loads o ++ loaded t.
 Proof.
-  intros o t t' H. destruct o; simpl in H; try (injection H as <-; reflexivity); try discriminate.
+  intros o t t' H. destruct o; simpl in H; try enum_case H; try (injection H as <-; reflexivity); try discriminate.
   destruct (has_impl _ _ _); [injection H as <-; reflexivity|].
   destruct (find_conflict _ _); [discriminate|injection H as <-; reflexivity].
 Qed.
@@ -339,3 +346,26 @@ Qed.
 Lemma loaded_import_changes_nothing : forall fuel fs t p t',
   mem p (loaded t) = true -> handle_import fuel fs t p = Ok t' -> t' = t.
 Proof. intros. rewrite handle_import_again in H0 by assumption. now injection H0. Qed.
+
+(* readable instance of only_exports_visible_l for functions *)
+Lemma hidden_function_l : forall fuel fs t p m t' n,
+  mem p (loaded t) = false -> resolve fs p = Some m -> handle_import fuel fs t p = Ok t' ->
+  (forall n0 b, In (SDecl true (DFunc n0 b)) m -> n <> n0 /\ n <> qualified p n0) ->
+  (forall d, In d (parser_impls fuel fs m) -> ~ In n (map fst (method_binds d))) ->
+  lookup n (funcs t') = lookup n (funcs t).
+Proof.
+  intros fuel fs t p m t' n M R H Hn Hi.
+  assert (Dec : forall a b : option nat, {a = b} + {a <> b}) by (decide equality; apply Nat.eq_dec).
+  destruct (Dec (lookup n (funcs t')) (lookup n (funcs t))) as [E|N]; [exact E|exfalso].
+  assert (C : tlookup TF n t' <> tlookup TF n t).
+  { simpl. intro C. apply N. destruct (lookup n (funcs t')), (lookup n (funcs t)); simpl in C; congruence. }
+  destruct (only_exports_visible_l _ _ _ _ _ _ _ _ M R H C) as [[d [Hd Hk]]|[d [Hd [[_ Hk]|[Hg _]]]]].
+  - destruct d; unfold decl_keys in Hk; simpl in Hk; try tauto;
+      try (destruct Hk as [Hk|[]]; discriminate).
+    + destruct (Hn _ _ Hd) as [N1 N2].
+      destruct Hk as [Hk|[Hk|[]]]; injection Hk as Hk; congruence.
+    + destruct is_const, init; simpl in Hk; try tauto;
+        repeat (destruct Hk as [Hk|Hk]; [discriminate|]); tauto.
+  - exact (Hi d Hd Hk).
+  - discriminate.
+Qed.
